@@ -29,35 +29,49 @@ GUARD_S = float(os.environ.get('C18_GUARD', '30'))
 KEEP_PER_SIG = 3
 CHUNK = 3000            # netlists per shard
 
+_COMMON = ('Every block is placed and routed twice, once per pinned set-iteration order (see ASSUMPTIONS). A netlist wiring '
+           'assigns EVERY sink pin (instance input pins, wrapper out-ports) any source (wrapper in-ports, instance output '
+           'pins): fan-out, feedback through Reg, combinational cycles, self-loops, forward edges spanning several columns, '
+           'one wire on two pins of one instance, an out-port fed straight by an in-port (port pair sharing one wire) are all '
+           'included; "alias" variants bind the two in-ports of the wrapper to one wire (what Add(a, a, r) looks like from '
+           'inside). A netlist is counted non-trivial when its drawing needs at least one pass-through or feedback marker. ')
 RULE = {
-    'quick': 'catalogue: every configuration of mc.catalog.configs("quick") (all library blocks of the C07/C08/C09/C14 grids '
-             'plus the extra designs), every structural block in each hierarchy drawn. Netlists: every type sequence of '
-             'length n over {Not,And2,Reg,Mux2,Two} x every (i,o) in {0,1,2}^2 x EVERY wiring (each sink pin any source; '
-             'fan-out, feedback through Reg, combinational cycles, long edges, one wire on two pins, in-port straight to '
-             'out-port all included) for n <= 2; for n = 3 the stated sub-space "types from {Not,Reg} plus at most one of '
-             '{And2,Two}, (i,o) in {(1,1),(2,1),(1,2)}", every wiring. A netlist is non-trivial when its drawing needs at '
-             'least one pass-through or feedback marker.',
-    'thorough': 'catalogue: every configuration of mc.catalog.configs("thorough"), every structural block in each hierarchy '
-                'drawn. Netlists: n <= 2 as in quick; n = 3: every type sequence over {Not,And2,Reg,Two} (no Mux2) x every '
-                '(i,o) with i in {1,2}, o in {0,1,2}, plus sequences with exactly one Mux2 and two of {Not,Reg} x (i,o) in '
-                '{(1,1),(2,1),(1,2)}; n = 4: type sequences over {Not,Reg,And2} with at most one And2 and at most two Reg, '
-                '(i,o) = (1,1); every wiring in each case.',
+    'quick': _COMMON +
+             'Catalogue: every configuration of mc.catalog.configs("quick") (library blocks over the C07/C08/C09/C14 grids plus '
+             'the extra designs); free inputs get Constant drivers; every structural block of each hierarchy (HWSystem, block, '
+             'structural descendants) is drawn. Netlists: every type sequence of length n <= 2 over {Not,And2,Reg,Mux2,Two} x '
+             'every (i,o) in {0,1,2}^2, all wirings, plus the alias variant of every i = 2 shape with o <= 1; n = 3: types from '
+             '{Not,Reg} plus at most one of {And2,Two}, (i,o) in {(1,1),(2,1),(1,2)}, all wirings.',
+    'thorough': _COMMON +
+                'Catalogue: every configuration of mc.catalog.configs("thorough"), every structural block of each hierarchy. '
+                'Netlists: n <= 2 as in quick with the alias variant of every i = 2 shape; n = 3: every type sequence over '
+                '{Not,And2,Reg,Two} x every (i,o) with i in {1,2}, o in {0,1,2}, plus sequences with exactly one Mux2 and two of '
+                '{Not,Reg} x (i,o) in {(1,1),(2,1),(1,2)}; n = 4: sequences over {Not,Reg,And2} with at most one And2 and at most '
+                'two Reg, (i,o) = (1,1); all wirings in each case.',
 }
 ASSUMPTIONS = [
     'the drawing is judged on the Schematic data model (objs, nets, symbol_matrix, symbol x/y/getWidth()/getHeight(), '
     'NetSymbol wire/source/sink/sourcePort/sinkPort, FeedbackStopSymbol.fb_start); rendered pixels of the routed '
     'polylines are not inspected',
+    'Schematic iterates over sets keyed by object address (list(set(..)) in getAllInstanceSinks, Intersection() of wires), so '
+    'its drawing of one netlist varies from process to process; the harness pins both iterations to creation order and to '
+    'reverse creation order (subclass override + order-preserving stand-in for the module-level Intersection helper) and '
+    'explores both; other iteration orders are not explored',
+    'matplotlib.textpath.TextPath (text extent of port names, a pure function) is memoised by the harness for speed',
     'a wire that is driven but read by nobody needs no net (the statement speaks of "the nets drawn for it")',
-    'blocks with in-out ports or with a read-but-undriven wire are outside the statement and skipped (counted)',
+    'when several in-ports of the block share one wire, touching one of them satisfies "the pin that really drives the wire"',
+    'blocks with in-out ports, with a read-but-undriven wire or with an instance output among several drivers of a wire '
+    'are outside the statement and skipped (counted)',
     'exceptions swallowed by placeAndRoute are not violations by themselves; an exception that escapes the '
     'constructor is reported under clause "exception" (no drawing is yielded)',
     'a netlist exceeding the %g s wall-clock guard twice in a row is reported as non-terminating' % GUARD_S,
-    'n = 3 and n = 4 are covered on the stated sub-spaces only (the full n = 3 space has 2.2e8 wirings)',
+    'n = 3 and n = 4 are covered on the stated sub-spaces only (the full n = 3 space has 2.2e8 wirings); all wires 1 bit',
 ]
 BOUNDS = {
-    'quick': 'catalogue at the quick grids (widths <= 2, arities <= 4); netlists n <= 2 complete, n = 3 on the stated sub-space; all 1-bit',
+    'quick': 'catalogue at the quick grids (widths <= 2, arities <= 4); netlists n <= 2 complete (i,o <= 2), n = 3 on the stated '
+             'sub-space; 2 set-iteration orders; guard %g s' % GUARD_S,
     'thorough': 'catalogue at the thorough grids (widths <= 3); netlists n <= 2 complete, n = 3 without Mux2 complete for i >= 1, '
-                'n = 3 with one Mux2 and n = 4 on the stated sub-spaces; all 1-bit',
+                'n = 3 with one Mux2 and n = 4 (<= 2 Reg, <= 1 And2) on the stated sub-spaces; 2 set-iteration orders; guard %g s' % GUARD_S,
 }
 
 
